@@ -333,7 +333,7 @@ def r3_order(ctx, f, rep):
                 good = (r[0] == 'call' and r[1] in calls and calls[r[1]]['res'] == 'core::cmp::Ordering::is_eq' and
                         calls[r[1]]['args'][0] == first) or \
                        (r[0] == 'binop' and r[1] == 'Eq' and first in (r[2], r[3]) and
-                        any(x[0] == 'variant' and x[2] == 'Equal' for x in (r[2], r[3])))
+                        any(q.variant_name(x) == 'Equal' for x in (r[2], r[3])))
         rep.check(good, 'C15-R3', eb.nname, 'eq = (self.cmp(other) is Equal)', construct='delegates')
 
 
